@@ -19,6 +19,7 @@
 
 #include <algorithm>
 #include <fstream>
+#include <functional>
 #include <limits>
 #include <map>
 #include <memory>
@@ -178,6 +179,33 @@ static int call(Fn&& fn, T& val, string& exc) {
   } catch (...) {
     exc = "non-std exception";
     return O_OTHER;
+  }
+}
+
+// printable outcome of a call: "ret:<value>" or the exception class
+template <typename T> static string show_val(const T& v) {
+  if constexpr (std::is_same_v<T, string>) return v;
+  else if constexpr (std::is_same_v<T, bool>) return v ? "true" : "false";
+  else if constexpr (std::is_floating_point_v<T>) return fmt("%.17g", (double)v);
+  else if constexpr (std::is_signed_v<T>) return fmt("%" PRId64, (int64_t)v);
+  else return fmt("%" PRIu64, (uint64_t)v);
+}
+template <typename T> static string show_val(const vector<T>& v) {
+  string r = "[";
+  for (size_t i = 0; i < v.size(); i++) r += (i ? "," : "") + show_val<T>(v[i]);
+  return r + "]";
+}
+template <typename Fn> static string outcome_of(Fn&& fn) {
+  try {
+    return "ret:" + show_val(fn());
+  } catch (const std::invalid_argument&) {
+    return "invalid_argument";
+  } catch (const std::out_of_range&) {
+    return "out_of_range";
+  } catch (const std::exception& e) {
+    return string("other-exception(") + e.what() + ")";
+  } catch (...) {
+    return "other-exception(non-std)";
   }
 }
 
@@ -692,6 +720,8 @@ static void part_tokens() {
         C->crumb_s(fmt("subset mask=%u ", mask) + kase);
         auto a = make_args(toks, ctor);
         string reads;
+        const bool probe_absent = ((idx + mask) & 1) == 0;  // "q" is defined by no token of the grammar
+        if (probe_absent) (void)a->get_multi<string>("q");
         try {
         for (size_t gi = 0; gi < g; gi++) {
           if (!(mask & (1u << gi))) continue;
@@ -720,6 +750,16 @@ static void part_tokens() {
         } catch (const std::exception& e) {
           C->violation("subset:getter-threw", string("reading an argument the reference predicts threw: ") + e.what(), kase + " reads:" + reads);
           continue;
+        }
+        if (probe_absent) {
+          // an absent option stays absent whatever was called for it before (must not disturb assert_none_unused either)
+          string o1 = outcome_of([&]() { return a->get<bool>("q"); });
+          string o2 = outcome_of([&]() { return a->get<int32_t>("q", (int32_t)3); });
+          string o3 = outcome_of([&]() { return a->get<int32_t>("q"); });
+          if (o1 != "ret:false" || o2 != "ret:3" || o3 != "out_of_range")
+            C->violation(fmt("history:absent:get_multi-then-get:%s", (o1.compare(0, 4, "ret:") || o2.compare(0, 4, "ret:")) ? "wrong-exception" : "wrong-value"),
+                "after get_multi<string>(\"q\") on an absent option: get<bool>(\"q\") must be false, get<int32_t>(\"q\",3) must be 3, get<int32_t>(\"q\") must throw out_of_range",
+                kase + " -> get<bool>: " + o1 + "; get<int32_t>(q,3): " + o2 + "; get<int32_t>(q): " + o3);
         }
         bool expect_throw = mask != (1u << g) - 1;
         int o = O_RET;
@@ -864,6 +904,206 @@ static void part_multi(vf::Rng& r) {
       C->cls(fmt("typed-used:%d", which));
     }
   }
+}
+
+// ------------------------------------------------------------------------------------------------
+// part: history — getters are observationally pure apart from the 'used' bookkeeping.
+// For a fixed command line every getter call has ONE right outcome (value or exception type): the statement
+// makes it a function of the argument's text / absence only.  So on one object, after ANY earlier getter
+// calls, a call must yield what it yields first on a fresh object; for an absent target that outcome is
+// given by the statement itself (out_of_range / the supplied default / false / "" / empty vector).
+// assert_none_unused() is judged against a model of what has been read so far.
+
+struct HCall {
+  string desc;       // printable
+  string kind;       // coarse kind for keys: get | get_multi | assert_none_unused
+  int target;        // 0 option name, 1 positional index, 2 none (assert)
+  string name;
+  size_t pos = 0;
+  bool single = true;      // single-valued getter (not judged on a repeated option)
+  string expect_absent;    // statement-given outcome when the target is absent
+  std::function<string(Arguments&)> fn;
+};
+
+static vector<HCall> history_calls() {
+  vector<HCall> cs;
+  auto add = [&](string desc, string kind, int target, string name, size_t pos, bool single, string ea, std::function<string(Arguments&)> fn) {
+    HCall c;
+    c.desc = desc; c.kind = kind; c.target = target; c.name = name; c.pos = pos; c.single = single; c.expect_absent = ea; c.fn = fn;
+    cs.push_back(c);
+  };
+  for (const char* nm : {"n", "s", "f", "x", "r"}) {
+    string N = nm, q = "\"" + N + "\"";
+    add("get<string>(" + q + ")", "get", 0, N, 0, true, "ret:", [N](Arguments& a) { return outcome_of([&]() { return a.get<string>(N); }); });
+    add("get<string>(" + q + ",true)", "get", 0, N, 0, true, "out_of_range", [N](Arguments& a) { return outcome_of([&]() { return a.get<string>(N, true); }); });
+    add("get<bool>(" + q + ")", "get", 0, N, 0, true, "ret:false", [N](Arguments& a) { return outcome_of([&]() { return a.get<bool>(N.c_str()); }); });
+    add("get<int32_t>(" + q + ")", "get", 0, N, 0, true, "out_of_range", [N](Arguments& a) { return outcome_of([&]() { return a.get<int32_t>(N); }); });
+    add("get<int32_t>(" + q + ",42)", "get", 0, N, 0, true, "ret:42", [N](Arguments& a) { return outcome_of([&]() { return a.get<int32_t>(N, (int32_t)42); }); });
+    add("get<uint8_t>(" + q + ",HEX)", "get", 0, N, 0, true, "out_of_range", [N](Arguments& a) { return outcome_of([&]() { return a.get<uint8_t>(N, IF::HEX); }); });
+    add("get<int64_t>(" + q + ",-1,DECIMAL)", "get", 0, N, 0, true, "ret:-1", [N](Arguments& a) { return outcome_of([&]() { return a.get<int64_t>(N, (int64_t)-1, IF::DECIMAL); }); });
+    add("get<double>(" + q + ")", "get", 0, N, 0, true, "out_of_range", [N](Arguments& a) { return outcome_of([&]() { return a.get<double>(N); }); });
+    add("get<double>(" + q + ",2.5)", "get", 0, N, 0, true, "ret:2.5", [N](Arguments& a) { return outcome_of([&]() { return a.get<double>(N, 2.5); }); });
+    add("get<float>(" + q + ")", "get", 0, N, 0, true, "out_of_range", [N](Arguments& a) { return outcome_of([&]() { return a.get<float>(N); }); });
+    add("get_multi<string>(" + q + ")", "get_multi", 0, N, 0, false, "ret:[]", [N](Arguments& a) { return outcome_of([&]() { return a.get_multi<string>(N); }); });
+    add("get_multi<int16_t>(" + q + ")", "get_multi", 0, N, 0, false, "ret:[]", [N](Arguments& a) { return outcome_of([&]() { return a.get_multi<int16_t>(N); }); });
+    add("get_multi<double>(" + q + ")", "get_multi", 0, N, 0, false, "ret:[]", [N](Arguments& a) { return outcome_of([&]() { return a.get_multi<double>(N); }); });
+  }
+  for (size_t P : {(size_t)0, (size_t)1, (size_t)5}) {
+    string q = fmt("%zu", P);
+    add("get<string>(" + q + ")", "get", 1, "", P, true, "out_of_range", [P](Arguments& a) { return outcome_of([&]() { return a.get<string>(P); }); });
+    add("get<string>(" + q + ",false)", "get", 1, "", P, true, "ret:", [P](Arguments& a) { return outcome_of([&]() { return a.get<string>(P, false); }); });
+    add("get<int32_t>(" + q + ")", "get", 1, "", P, true, "out_of_range", [P](Arguments& a) { return outcome_of([&]() { return a.get<int32_t>(P); }); });
+    add("get<int32_t>(" + q + ",42)", "get", 1, "", P, true, "ret:42", [P](Arguments& a) { return outcome_of([&]() { return a.get<int32_t>(P, (int32_t)42); }); });
+    add("get<double>(" + q + ")", "get", 1, "", P, true, "out_of_range", [P](Arguments& a) { return outcome_of([&]() { return a.get<double>(P); }); });
+    add("get<double>(" + q + ",2.5)", "get", 1, "", P, true, "ret:2.5", [P](Arguments& a) { return outcome_of([&]() { return a.get<double>(P, 2.5); }); });
+  }
+  add("assert_none_unused()", "assert_none_unused", 2, "", 0, false, "", [](Arguments& a) { return outcome_of([&]() { a.assert_none_unused(); return string("silent"); }); });
+  return cs;
+}
+
+struct HWorld {
+  vector<string> toks;
+  RefArgs ref;
+  vector<string> fresh;   // outcome of each call as the first call on a fresh object
+  vector<int> effect;     // per call: -2 not usable in this world, -1 reads nothing, >=0 reads group g, -3 leaves bookkeeping undefined (failed read of a present argument)
+  size_t ngroups = 0;
+};
+
+static int world_group(const HWorld& w, const HCall& c) {
+  if (c.target == 1) return c.pos < w.ref.pos.size() ? (int)c.pos : -1;
+  if (c.target == 0)
+    for (size_t i = 0; i < w.ref.named.size(); i++)
+      if (w.ref.named[i].first == c.name) return (int)(w.ref.pos.size() + i);
+  return -1;
+}
+
+static void history_sequence(const HWorld& w, const vector<HCall>& cs, const int* seq, int len, uint64_t salt) {
+  C->evaluations++;
+  auto a = make_args(w.toks, (unsigned)salt);
+  vector<bool> read(w.ngroups, false);
+  bool undefined_bookkeeping = false;
+  string prior_kinds[3];
+  string hist;
+  for (int i = 0; i < len; i++) {
+    const HCall& c = cs[seq[i]];
+    C->crumb_s("history " + show_tokens(w.toks) + " :" + hist + " -> " + c.desc);
+    string got = c.fn(*a);
+    int grp = world_group(w, c);
+    string expect;
+    bool judged = true;
+    const char* tclass;
+    if (c.target == 2) {
+      tclass = "unused";
+      if (undefined_bookkeeping) judged = false;
+      bool all = true;
+      for (bool b : read) all &= b;
+      expect = all ? "ret:silent" : "invalid_argument";
+    } else if (grp < 0) {
+      tclass = "absent";
+      expect = c.expect_absent;
+    } else {
+      tclass = "present";
+      expect = w.fresh[seq[i]];
+    }
+    if (judged && got != expect) {
+      // prior = sorted distinct coarse kinds of the earlier calls
+      vector<string> pk;
+      for (int k = 0; k < i; k++) pk.push_back(cs[seq[k]].kind);
+      sort(pk.begin(), pk.end());
+      pk.erase(unique(pk.begin(), pk.end()), pk.end());
+      string prior;
+      for (auto& k : pk) prior += (prior.empty() ? "" : "+") + k;
+      if (prior.empty()) prior = "fresh";
+      bool got_ret = got.compare(0, 4, "ret:") == 0, exp_ret = expect.compare(0, 4, "ret:") == 0;
+      const char* dev = got_ret ? (exp_ret ? "wrong-value" : "returned-instead-of-throwing") : "wrong-exception";
+      C->violation(fmt("history:%s:%s-then-%s:%s", tclass, prior.c_str(), c.kind.c_str(), dev),
+          fmt("on one object, after the earlier calls, %s must still yield %s (the statement makes it a function of the argument's text/absence; same call first on a fresh object: %s)",
+              c.desc.c_str(), expect.c_str(), w.fresh[seq[i]].c_str()),
+          "tokens=" + show_tokens(w.toks) + " calls:" + hist + " ; " + c.desc + " -> " + got);
+      return;
+    }
+    // bookkeeping model
+    int eff = w.effect[seq[i]];
+    if (eff >= 0) read[eff] = true;
+    else if (eff == -3) undefined_bookkeeping = true;
+    hist += (hist.empty() ? " " : " ; ") + c.desc + " -> " + got;
+  }
+}
+
+static void part_history(vf::Rng& r) {
+  vector<HCall> cs = history_calls();
+  vector<vector<string>> worlds = {
+      {"--n=5", "--s=abc", "-f", "--r=1", "--r=2", "7", "xyz"},
+      {},
+      {"7"},
+      {"--n=-0x10", "--x=1"},
+      {"-fx", "--s=", "3.5", "--r=9"},
+  };
+  uint64_t idx = 0, nseq = 0;
+  for (size_t wi = 0; wi < worlds.size(); wi++) {
+    HWorld w;
+    w.toks = worlds[wi];
+    w.ref = classify(w.toks);
+    w.ngroups = w.ref.pos.size() + w.ref.named.size();
+    vector<int> usable;
+    for (size_t ci = 0; ci < cs.size(); ci++) {
+      const HCall& c = cs[ci];
+      int grp = world_group(w, c);
+      auto a = make_args(w.toks, 0);
+      string f = c.fn(*a);
+      w.fresh.push_back(f);
+      int eff;
+      if (c.target == 2 || grp < 0) eff = -1;
+      else if (c.single && c.target == 0 && w.ref.named[grp - w.ref.pos.size()].second.size() > 1) eff = -2;  // single getter on a repeated option: not judged
+      else if (f.compare(0, 4, "ret:") == 0) eff = grp;
+      else eff = -3;
+      w.effect.push_back(eff);
+      if (eff != -2) usable.push_back((int)ci);
+    }
+    size_t U = usable.size();
+    // every call alone, every ordered pair
+    for (size_t i = 0; i < U; i++) {
+      int s1[1] = {usable[i]};
+      if (C->mine(idx++)) { history_sequence(w, cs, s1, 1, idx); nseq++; }
+      for (size_t j = 0; j < U; j++) {
+        int s2[2] = {usable[i], usable[j]};
+        if (C->mine(idx++)) { history_sequence(w, cs, s2, 2, idx); nseq++; }
+      }
+    }
+    // every ordered triple over the calls that share a target (plus assert_none_unused)
+    for (size_t t = 0; t < U; t++) {
+      const HCall& lead = cs[usable[t]];
+      if (lead.target == 2) continue;
+      bool first_of_target = true;
+      for (size_t k = 0; k < t; k++) {
+        const HCall& o = cs[usable[k]];
+        if (o.target == lead.target && o.name == lead.name && o.pos == lead.pos) first_of_target = false;
+      }
+      if (!first_of_target) continue;
+      vector<int> grp;
+      for (size_t k = 0; k < U; k++) {
+        const HCall& o = cs[usable[k]];
+        if (o.target == 2 || (o.target == lead.target && o.name == lead.name && o.pos == lead.pos)) grp.push_back(usable[k]);
+      }
+      for (int x : grp) for (int y : grp) for (int z : grp) {
+        int s3[3] = {x, y, z};
+        if (C->mine(idx++)) { history_sequence(w, cs, s3, 3, idx); nseq++; }
+      }
+      bool absent = world_group(w, lead) < 0;
+      C->cls(fmt("history:world%zu:%s:%s", wi, lead.target == 0 ? "name" : "position", absent ? "absent" : "present"));
+    }
+    // seeded triples across targets (per-shard stream)
+    uint64_t nr = C->qt<uint64_t>(30000, 400000) / worlds.size() / C->nshards + 1;
+    for (uint64_t k = 0; k < nr; k++) {
+      int s3[3] = {usable[r.below(U)], usable[r.below(U)], usable[r.below(U)]};
+      history_sequence(w, cs, s3, 3, r.next());
+      nseq++;
+    }
+  }
+  C->count("history_sequences", nseq);
+  C->cls("history:pairs-all-ordered");
+  C->cls("history:triples-same-target");
+  C->cls("history:triples-seeded");
 }
 
 // ------------------------------------------------------------------------------------------------
@@ -1056,6 +1296,7 @@ int main(int argc, char** argv) {
   if (want("absent") && c.mine(3)) part_absent();
   if (want("tokens")) part_tokens();
   if (want("multi")) part_multi(r);
+  if (want("history")) part_history(r);
   if (want("cases")) part_cases();
   for (int t = 0; t < 8; t++)
     for (int f = 0; f < 4; f++)
